@@ -140,10 +140,10 @@ Proof.
             nC (allocs st) = nC (allocs s) + sumw wC l) by (intros; subst; lia).
   destruct e as [src tid c r unk|src p d|src n d|relay from d|dt|relay]; cbn [step] in H.
   - destruct unk; [inv_pair H; apply Same; reflexivity|].
-    destruct r as [tr lt fam df rp|lt fam|peers|n p|]; try (inv_pair H; apply Same; reflexivity);
+    destruct r as [tr lt fam df rp ep rt mt|lt fam|peers|n p|]; try (inv_pair H; apply Same; reflexivity);
       destruct (authenticate cfg s c) as [uid|code ch]; try (inv_pair H; apply Same; reflexivity).
     + unfold h_allocate in H. repeat (dmatch H; try (inv_pair H; apply Same; reflexivity)).
-      all: inv_pair H; cbn [allocs set_allocs]; rewrite nP_app, nC_app; unfold nA; rewrite app_length; cbn; lia.
+      all: inv_pair H; cbn [allocs set_allocs add_rsv]; rewrite nP_app, nC_app; unfold nA; rewrite app_length; cbn; lia.
     + unfold h_refresh in H. cbv zeta in H.
       destruct (owned_alloc s src uid) as [a|] eqn:Ho; [|inv_pair H; apply Same; reflexivity].
       apply owned_alloc_some in Ho as (Hin & Hc & Hu).
